@@ -311,8 +311,9 @@ func (s *KevoServiceServer) TxGet(ctx context.Context, req *pb.TxGetRequest) (*p
 	}
 
 	if len(req.Key) == 0 || len(req.Key) > s.maxKeySize {
-		// For invalid inputs, consider automatically releasing the transaction
-		s.txRegistry.Remove(req.TransactionId)
+		// Reject the request and nothing else: dropping the handle here (without
+		// rolling the transaction back) left the transaction holding the
+		// database lock with nobody able to finish it
 		return nil, fmt.Errorf("invalid key size")
 	}
 
